@@ -6,7 +6,7 @@
 From Coq Require Import List ZArith Bool Arith Lia.
 From SC Require Import Base.Res Base.PyList Inst.Heap Inst.ClassTable Inst.Model Inst.Canon
   Inst.Abs Inst.SpecHelpers Inst.ElemProofs Inst.Framed Inst.RefineProofs Inst.CopyProofs Inst.ElemRefineDep Inst.ElemRefine
-  Inst.ElemRefine2 Inst.ElemRefine3 Inst.ElemRefine4 Inst.ElemRefine5 Inst.ElemRefine6 Inst.ElemRefine7 Inst.ElemRefine8 Inst.ElemRefine9 Inst.ElemRefine10 Inst.ElemRefine11.
+  Inst.ElemRefine2 Inst.ElemRefine3 Inst.ElemRefine4 Inst.ElemRefine5 Inst.ElemRefine6 Inst.ElemRefine7 Inst.ElemRefine8 Inst.ElemRefine9 Inst.ElemRefine10 Inst.ElemRefine11 Inst.ElemRefine12.
 Import ListNotations.
 Open Scope nat_scope.
 
@@ -1052,6 +1052,142 @@ Section GuardedUpdatePrep.
              ltac:(cbn [ty_depth] in Gdep; lia) Glc Go voi v Gdnc Gpc Ginit Ga0 Hv Hnv Hid Hkf).
   Qed.
 End GuardedUpdatePrep.
+
+(* ------------------------------------------------------------------ *)
+(** * The guard of the copy-on-write calls that create the container *)
+
+(* flat receiver, not being initialised, of a class (frozen or not) in which nothing is
+   invalidated by a, without do_not_copy and __post_copy__ hook, whose attribute a is declared as a
+   list / dict / set and holds NOTHING *)
+Definition missing_copy_guard (ct : ctable) (s : state) (l : loc) (a : aid) (kd : ckind) : bool :=
+  match nth_error (heap s) l with
+  | Some (OInst c d) =>
+      match lookup_cls ct c with
+      | Some k =>
+          match lookup_attr k a, assoc a d, assoc a (c_overrides k) with
+          | Some sp, None, None =>
+              nodupb (map fst d) && negb (c_dnc k) && no_depb k a
+              && (ty_depth (a_ty sp) <=? FUEL) && flat_fieldsb (heap s) d
+              && match c_post_copy k with None => true | Some _ => false end
+              && match assoc A_INITIALIZING d with None => true | Some _ => false end
+              && negb (a =? A_INITIALIZING)
+              && match a_default sp with VMissing => true | _ => false end
+              && kind_ty kd (a_ty sp)
+          | _, _, _ => false
+          end
+      | None => false
+      end
+  | _ => false
+  end.
+
+Section GuardedMissingCopy.
+  Variable ct : ctable.
+  Variable h0 : list obj.
+  Variable s : state.
+  Variables (l : loc) (a : aid).
+
+  Lemma missing_copy_guard_sound kd : missing_copy_guard ct s l a kd = true ->
+    exists c d k sp,
+      nth_error (heap s) l = Some (OInst c d) /\ lookup_cls ct c = Some k /\ lookup_attr k a = Some sp /\
+      NoDup (map fst d) /\ c_dnc k = false /\ c_post_copy k = None /\ no_dep k a /\ ty_depth (a_ty sp) <= FUEL /\
+      assoc a d = None /\ assoc a (c_overrides k) = None /\ a_default sp = VMissing /\
+      flat_fields (heap s) d /\ assoc A_INITIALIZING d = None /\ a <> A_INITIALIZING /\
+      kind_ty kd (a_ty sp) = true /\ attr_spec_of ct s l a = Some sp.
+  Proof.
+    unfold missing_copy_guard, attr_spec_of. intro H.
+    destruct (nth_error (heap s) l) as [[| | |c d]|] eqn:El; try discriminate.
+    destruct (lookup_cls ct c) as [k|] eqn:Ec; try discriminate.
+    destruct (lookup_attr k a) as [sp|] eqn:Ea; try discriminate.
+    destruct (assoc a d) eqn:Ef; try discriminate.
+    destruct (assoc a (c_overrides k)) eqn:Eo; try discriminate.
+    repeat (apply andb_true_iff in H; destruct H as [H ?]).
+    exists c, d, k, sp. repeat (split; [auto|]); auto.
+    - now apply nodupb_sound.
+    - now apply negb_true_iff.
+    - destruct (c_post_copy k); [discriminate|reflexivity].
+    - now apply no_depb_sound.
+    - now apply Nat.leb_le.
+    - destruct (a_default sp); try discriminate; reflexivity.
+    - now apply flat_fieldsb_sound.
+    - destruct (assoc A_INITIALIZING d); [discriminate|reflexivity].
+    - apply Nat.eqb_neq. now apply negb_true_iff.
+  Qed.
+
+  Ltac mcfacts kd H :=
+    destruct (missing_copy_guard_sound kd H)
+      as [c [d [k [sp [Gl [Gc [Ga [Gd [Gdnc [Gpc [Gni [Gdep [Gnone [Gov [Gdef [Gflat [Ginit [Ga0 [Gk Gsp]]]]]]]]]]]]]]]]]]].
+
+  Theorem with_item_list_missing_copy_guarded idx v ins :
+    missing_copy_guard ct s l a KList = true -> plain_items ct s l a = true ->
+    vscalar v = true -> (idx = VMissing \/ exists i, idx = VInt i) ->
+    copy_refines_spec ct h0 s l (HWithItem a) (mkh [v] false true idx ins None None [] None)
+                      (SWithItem a) (mkah [abs0 v] false true (abs0 idx) ins None None [] None).
+  Proof.
+    intros H Hp Hv Hi. mcfacts KList H.
+    destruct (a_ty sp) as [| | | | | | |ity| |ity'|] eqn:Hty; try discriminate Gk.
+    destruct (plain_items_facts ct s l a sp Gsp Hp) as [P1 P2]. rewrite Hty in P2. cbn [item_type] in P2.
+    exact (with_item_list_missing_copy_refines ct h0 l a c d k sp s Gl Gc Ga Gd Gdnc Gpc Gni Gnone Gov Gdef Gflat Ginit Ga0
+             ity idx v ins Hty P1 P2 ltac:(cbn [ty_depth] in Gdep; lia) Hv Hi).
+  Qed.
+
+  Theorem without_item_list_missing_copy_guarded voi bi :
+    missing_copy_guard ct s l a KList = true -> nonref voi = true ->
+    copy_refines_spec ct h0 s l (HWithoutItem a) (mkh [voi] false true VMissing false bi None [] None)
+                      (SWithoutItem a) (mkah [abs0 voi] false true AMissing false bi None [] None).
+  Proof.
+    intros H Hv. mcfacts KList H.
+    destruct (a_ty sp) as [| | | | | | |ity| |ity'|] eqn:Hty; try discriminate Gk.
+    exact (without_item_list_missing_copy_refines ct h0 l a c d k sp s Gl Gc Ga Gd Gdnc Gpc Gni Gnone Gov Gdef Gflat Ginit Ga0
+             ity voi bi Hty ltac:(cbn [ty_depth] in Gdep; lia) Hv).
+  Qed.
+
+  Theorem with_item_dict_missing_copy_guarded key v :
+    missing_copy_guard ct s l a KDict = true -> plain_items ct s l a = true ->
+    nonref key = true -> vscalar v = true ->
+    copy_refines_spec ct h0 s l (HWithItem a) (mkh [key; v] false true VMissing false None None [] None)
+                      (SWithItem a) (mkah [abs0 key; abs0 v] false true AMissing false None None [] None).
+  Proof.
+    intros H Hp Hkey Hv. mcfacts KDict H.
+    destruct (a_ty sp) as [| | | | | | | |tk tv| |] eqn:Hty; try discriminate Gk.
+    destruct (plain_items_facts ct s l a sp Gsp Hp) as [P1 P2]. rewrite Hty in P2. cbn [item_type] in P2.
+    exact (with_item_dict_missing_copy_refines ct h0 l a c d k sp s Gl Gc Ga Gd Gdnc Gpc Gni Gnone Gov Gdef Gflat Ginit Ga0
+             tk tv key v Hty P1 P2 ltac:(cbn [ty_depth] in Gdep; lia) ltac:(cbn [ty_depth] in Gdep; lia) Hkey Hv).
+  Qed.
+
+  Theorem without_item_dict_missing_copy_guarded key :
+    missing_copy_guard ct s l a KDict = true -> nonref key = true ->
+    copy_refines_spec ct h0 s l (HWithoutItem a) (mkh [key] false true VMissing false None None [] None)
+                      (SWithoutItem a) (mkah [abs0 key] false true AMissing false None None [] None).
+  Proof.
+    intros H Hkey. mcfacts KDict H.
+    destruct (a_ty sp) as [| | | | | | | |tk tv| |] eqn:Hty; try discriminate Gk.
+    exact (without_item_dict_missing_copy_refines ct h0 l a c d k sp s Gl Gc Ga Gd Gdnc Gpc Gni Gnone Gov Gdef Gflat Ginit Ga0
+             tk tv key Hty Hkey).
+  Qed.
+
+  Theorem with_item_set_missing_copy_guarded v :
+    missing_copy_guard ct s l a KSet = true -> plain_items ct s l a = true -> vscalar v = true ->
+    copy_refines_spec ct h0 s l (HWithItem a) (mkh [v] false true VMissing false None None [] None)
+                      (SWithItem a) (mkah [abs0 v] false true AMissing false None None [] None).
+  Proof.
+    intros H Hp Hv. mcfacts KSet H.
+    destruct (a_ty sp) as [| | | | | | |ity'| |ity|] eqn:Hty; try discriminate Gk.
+    destruct (plain_items_facts ct s l a sp Gsp Hp) as [P1 P2]. rewrite Hty in P2. cbn [item_type] in P2.
+    exact (with_item_set_missing_copy_refines ct h0 l a c d k sp s Gl Gc Ga Gd Gdnc Gpc Gni Gnone Gov Gdef Gflat Ginit Ga0
+             ity v Hty P1 P2 ltac:(cbn [ty_depth] in Gdep; lia) Hv).
+  Qed.
+
+  Theorem without_item_set_missing_copy_guarded voi :
+    missing_copy_guard ct s l a KSet = true -> nonref voi = true ->
+    copy_refines_spec ct h0 s l (HWithoutItem a) (mkh [voi] false true VMissing false None None [] None)
+                      (SWithoutItem a) (mkah [abs0 voi] false true AMissing false None None [] None).
+  Proof.
+    intros H Hv. mcfacts KSet H.
+    destruct (a_ty sp) as [| | | | | | |ity'| |ity|] eqn:Hty; try discriminate Gk.
+    exact (without_item_set_missing_copy_refines ct h0 l a c d k sp s Gl Gc Ga Gd Gdnc Gpc Gni Gnone Gov Gdef Gflat Ginit Ga0
+             ity voi Hty Hv).
+  Qed.
+End GuardedMissingCopy.
 
 (* ------------------------------------------------------------------ *)
 (** * A concrete class and receiver: xs : List[int], m : Dict[str, int], t : Set[int] *)
